@@ -78,8 +78,17 @@ def level_guard(chk, facts):
                 err_reach = cfg.reachable(f, err_edge, cut_blocks={ok_edge})
                 reaches_insert = any(i in err_reach for i in ins)
                 exact = last in ("ge", "lt")
-                ok = reaches_insert and exact
-                det = "level compared with `%s` against max_level; the exceeding edge reports the error: %s%s" % (last, reaches_insert, "" if exact else " — but `%s` lets level == max_level through" % last)
+                # between the measurement and the report no further condition may intervene
+                extra = []
+                for i in ins:
+                    if i in err_reach:
+                        for d, taken in cfg.guard_edges(f, i):
+                            if d != sb and d != b and cfg.dominates(f, b, d):
+                                extra.append(panics.cond_desc(f, d))
+                ok = reaches_insert and exact and not extra
+                det = "level compared with `%s` against max_level; the exceeding edge reports the error: %s%s%s" % (
+                    last, reaches_insert, "" if exact else " — but `%s` lets level == max_level through" % last,
+                    "" if not extra else " — but the report is additionally conditional on %s" % extra)
         n += 1
         chk.ob(rule, "deref@L%s" % t[1].get("l"), ok, det, where=f.where(t[1].get("l")), fn=f.name, key="%s:deref" % rule,
                sample={"site": t[1].get("l"), "detail": det})
@@ -276,6 +285,39 @@ def monotone(chk, facts):
         sample={"uses": sorted({u[1].split("::")[-1] for u in uses})})
 
 
+def additive_closure(chk, facts):
+    """The slice keeps each entity 'with its own ancestor set': building a store from such entities must not
+    discard ancestors whose own records are absent. The closure routines may only add edges."""
+    rule = "C16.ADDITIVE"
+    TC = "cedar_policy_core::transitive_closure::"
+    fns = [facts.fns[n] for n in facts.fns.keys() if n.startswith(TC) and "{closure" not in n.split(TC, 1)[1].split("::")[0] and not n.startswith(TC + "err")]
+    fns += [g for f in list(fns) for g in facts.closures_of(f.name)]
+    anchor = [n for n in facts.fns.keys() if n.endswith("TCNode<cedar_policy_core::ast::entity::EntityUID>>::reset_edges") and "ast::entity::Entity " in n]
+    if not anchor:
+        chk.lost(rule, "<Entity as TCNode>::reset_edges (the edge-clearing primitive the rule excludes)")
+        return
+    adds = 0
+    seen = set()
+    for f in fns:
+        if f.name in seen:
+            continue
+        seen.add(f.name)
+        chk.functions.add(f.name)
+        for b, t in f.calls():
+            c = callee(t)
+            last = c.split("::")[-1]
+            if "TCNode" in c and last == "add_edge_to":
+                adds += 1
+            bad = ("TCNode" in c and last not in ("add_edge_to", "get_key", "out_edges", "has_edge_to", "direct_edges")) or \
+                  last in ("remove_indirect_ancestor", "remove_parent", "remove_all_indirect_ancestors")
+            if bad or last == "add_edge_to":
+                chk.ob(rule, "%s:%s@L%s" % (short(f.name), last, t[1].get("l")), not bad,
+                       "closure routine %s calls %s: %s" % (short(f.name), last, "discards existing edges (ancestors whose records are absent from the store are lost)" if bad else "adds an edge"),
+                       where=f.where(t[1].get("l")), fn=f.name, key="%s:%s:%s" % (rule, short(f.name), last),
+                       sample={"fn": short(f.name), "call": last})
+    chk.floor(rule, "add_edge_to sites in the closure routines", adds, 2)
+
+
 def run(chk, facts, tier):
     facts.load_crate("cedar_policy_core.lib")
     chk.explanation = (
@@ -293,6 +335,7 @@ def run(chk, facts, tier):
     envs_every_iteration(chk, facts)
     literal_exemption(chk, facts)
     monotone(chk, facts)
+    additive_closure(chk, facts)
     # validate_with_level must level-check every template of the set (shared with C03)
     from rules import c03_validate
     c03_validate.check(chk, facts)
